@@ -155,8 +155,9 @@ def replay_state(chk, st, cplx, names, counter):
                                           'correlogram (rectangular, lag N-1, biased, NFFT=%d) differs from the periodogram: %s' % (nfft, bad),
                                           dict(case, expect=two, observed=res))
         # 2-D input: column-wise, one shared window
-        if N >= 2 and counter[0] % 3 == 0:
-            cols = [y, y[::-1].copy(), 2 * y]
+        # (also a single column, and records of one sample: a 1 x 3 matrix is three records of length 1)
+        if (N >= 2 and counter[0] % 3 == 0) or N == 1:
+            cols = [y, y[::-1].copy(), 2 * y][:1 if (N >= 2 and counter[0] % 6 == 3) else 3]
             nfft = nf[0]
             xs2 = [data_for(cy, w) for cy in cols]
             if any(v is None for v in xs2):
@@ -183,7 +184,7 @@ def replay_state(chk, st, cplx, names, counter):
                 bad = cmp_vec(res, E, tol=1e-7, name='psd-2d')
                 if bad:
                     chk.violation('C01:speriodogram-2d:%s:values' % mode,
-                                  'speriodogram on a %dx3 matrix (window=%s, NFFT=%d) is not column-wise: %s' % (N, name, nfft, bad),
+                                  'speriodogram on a %dx%d matrix (window=%s, NFFT=%d) is not column-wise: %s' % (N, len(cols), name, nfft, bad),
                                   {'X': X, 'window': name, 'NFFT': nfft, 'expect': E, 'observed': res})
                 chk.count('periodogram-' + mode, '2d-calls')
     chk.replayed += 1
